@@ -26,20 +26,20 @@ TARGETS = ['valjean.eponine.tripoli4.scan:Scanner.__init__', 'valjean.eponine.tr
            'valjean.eponine.tripoli4.parse:Parser._parse_listing_worker', 'valjean.eponine.tripoli4.parse:Parser._time_consistency']
 DATA = os.environ.get('VERIF_TREE', '/repo') + '/tests/eponine/tripoli4/data'
 LISTINGS = {'para': 'ttsSimplePacket20.d.PARA.res.ceav5', 'green': 'greenband_exploit_T410_contrib.d.res.ceav5',
-            'pertu': 'pertu_covariances.d.res.ceav5'}
+            'pertu': 'pertu_covariances.d.res.ceav5', 'mono': 'ttsSimplePacket20.d.res.ceav5'}
 KEYWORDS = ['BATCH', 'number of tasks is', 'BATCH_PER_SIMULATOR', 'PACKET_LENGTH', 'initialization time', 'batch number :',
             'Edition after batch number', 'number of batches used', 'simulation time', 'exploitation time', 'elapsed time',
-            'RESULTS ARE GIVEN', 'NORMAL COMPLETION', 'WARNING', 'ERROR']
+            'RESULTS ARE GIVEN', 'NORMAL COMPLETION', 'WARNING', 'ERROR', 'random generator']
 BOUNDS = {'quick': {'listings': 'ttsSimplePacket20.d.PARA (8.4 kB, parallel mode): EVERY byte offset (scan + Parser()); '
-                                'greenband / pertu_covariances: every byte of every line containing a scanner keyword',
+                                'greenband / pertu_covariances / ttsSimplePacket20 (sequential): every byte of every line containing a scanner keyword and of the line after it',
                     'parse of editions': 'last complete edition parsed and compared at every 16th offset of the PARA listing'},
           'thorough': {'listings': 'as quick', 'parse of editions': 'last complete edition parsed and compared at every 4th offset of the PARA listing and at the key-line offsets of the others'}}
 ASSUMPTIONS = ['results of an edition = the parsed responses and batch data, without the file-level run data (file name, NORMAL COMPLETION flag) and the wall-clock timings',
-               'prefixes of three shipped listings (one parallel-mode, two sequential-mode); synthetic listings are outside',
+               'prefixes of four shipped listings (one parallel-mode, three sequential-mode); synthetic listings are outside',
                'the cut point is solver-chosen; reading a file concretises it (one path per offset of the stated range)',
                'per-path wall-clock limit of 60 s stands for "never hangs"']
 OUTSIDE = ['what the pyparsing grammar does on blocks that the scanner does not deliver (the scanner only hands over complete editions)',
-           'listings other than the three used', 'concurrent parsing (only: a parse from a second thread after a refused block comes back)']
+           'listings other than the four used', 'concurrent parsing (only: a parse from a second thread after a refused block comes back)']
 EXPLANATION = ('bounded-exhaustive symbolic execution (symrun + z3 enumerating the symbolic cut offset) of the real Scanner/Parser on truncated '
                'shipped listings; exception types and per-edition results compared with the complete listing')
 
@@ -63,10 +63,13 @@ def key_offsets(data):
     """byte offsets inside the lines the scanner interprets"""
     offs = set()
     pos = 0
+    follow = False
     for line in data.split(b'\n'):
         txt = line.decode('utf-8', 'ignore')
-        if any(k in txt for k in KEYWORDS):
+        hit = any(k in txt for k in KEYWORDS)
+        if hit or follow:            # the key line itself and the line after it (the scanner reads ahead)
             offs.update(range(pos, pos + len(line) + 2))
+        follow = hit
         pos += len(line) + 1
     return sorted(o for o in offs if o <= len(data))
 
@@ -86,6 +89,8 @@ def deep_equal(a, b):
             return bool(np.array_equal(a, b, equal_nan=True)) if a.dtype.kind == 'f' else bool(np.array_equal(a, b))
         except Exception:      # noqa
             return False
+    if isinstance(a, (float, np.floating)) and isinstance(b, (float, np.floating)) and np.isnan(a) and np.isnan(b):
+        return True          # a 'not converged' scalar is NaN in both
     if hasattr(a, '__dict__') and hasattr(b, '__dict__') and type(a) is type(b):
         return deep_equal(vars(a), vars(b))
     try:
@@ -193,9 +198,11 @@ def jobs(tier):
     for s in range(nsh):
         out.append((f'para-bytes-{s}', _job, dict(name='para', lo=s * step, hi=min(size, (s + 1) * step - 1), use_keys=False,
                                                  parse_every=pe, timeout_ms=20000)))
-    for name in ('green', 'pertu'):
-        for s in range(4):
-            out.append((f'{name}-keylines-{s}', _job, dict(name=name, lo=s * 600, hi=s * 600 + 599, use_keys=True,
+    for name in ('green', 'pertu', 'mono'):
+        nkeys = len(key_offsets(open(os.path.join(DATA, LISTINGS[name]), 'rb').read()))
+        per = 700
+        for s in range((nkeys + per - 1) // per):          # EVERY key-line offset (shards of 700)
+            out.append((f'{name}-keylines-{s}', _job, dict(name=name, lo=s * per, hi=s * per + per - 1, use_keys=True,
                                                           parse_every=(0 if tier == 'quick' else 64), timeout_ms=20000)))
     return out
 
